@@ -126,4 +126,11 @@ PROPS = {
         gen_obligations=["Gen.serveDeferRecover","Gen.serveDeferClose","Gen.serveDeferNotify","Gen.muxServeRLockDeferred","Gen.acceptRetryCond","Gen.acceptBackoffFirstMs","Gen.acceptBackoffFactor","Gen.acceptBackoffMaxMs","Gen.acceptResetsDelay","Gen.acceptSpawnsServe","Gen.serveDefersListenerClose","Gen.capErrorReports"],
         trusted=CONN_TRUST + ["Model.Listener hand-written from Server.Serve's accept loop; back-off constants regenerated"],
     ),
+    "C06": dict(
+        domains=[("alias", "leaf", 4000, 60000), ("alias", "hist", 1500, 20000)],
+        relevant=["C06:"],
+        theorems=["DV.Props.C06."+t for t in ["C06_owned","C06_unchanged","C06_private_buffer","C06_gen","C06_current","C06_alias_counterexample"]],
+        gen_obligations=["Gen.sliceKinded","Gen.decoderAliasing","Gen.groupedAVPFields","Gen.bodyBuffer"],
+        trusted=CODEC_TRUST + ["Model.Alias: memory model of the pooled reader buffers (sync.Pool may hand any pooled buffer to any later ReadMessage); which decoders copy is read from the source by the extractor and checked behaviourally per data type"],
+    ),
 }
